@@ -411,6 +411,79 @@ def stop_task(p, cfg, rec):
     p.prove('resuming with clk(%d) gives the state of the uninterrupted run' % (n - 1), cmp(e1, e0), inputs=vars_, replay=replay)
 
 
+class _Override(py4hw.Logic):
+    """FSM style 'default assignment first, override later': the same output is prepared more than once in one edge (the library
+    tolerates it with a warning); the LAST prepared value is the one that becomes visible, none may get lost"""
+
+    def __init__(self, parent, name, a, busy, lvl):
+        super().__init__(parent, name)
+        self.a = self.addIn('a', a)
+        self.busy = self.addOut('busy', busy)
+        self.lvl = self.addOut('lvl', lvl)
+
+    def clock(self):
+        self.busy.prepare(0)
+        if self.a.get() & 1:
+            self.busy.prepare(1)
+        self.lvl.prepare(0)
+        self.lvl.prepare(self.a.get() >> 1)
+        if self.a.get() == 7:
+            self.lvl.prepare(5)
+
+
+def override_task(p, cfg, rec):
+    from py4hw.logic.storage import Reg
+    def run(values=None):
+        with quiet():
+            s = py4hw.HWSystem()
+            a, busy, lvl, q = s.wire('a', 3), s.wire('busy', 1), s.wire('lvl', 3), s.wire('q', 3)
+            _Override(s, 'fsm', a, busy, lvl)
+            Reg(s, 'r', lvl, q, enable=busy)
+            if values is None:
+                symsim.instrument(s, rec)
+            sim = s.getSimulator()
+        vars_ = {}
+        outs = []
+        for k in range(2):
+            if values is None:
+                x, v = core.fresh('a%d' % k, 3)
+                vars_['a%d' % k] = v
+            else:
+                x = values.get('a%d' % k, 0)
+            a.put(x)
+            with quiet():
+                sim.clk(1)
+            outs.append((busy.get(), lvl.get(), q.get()))
+        return outs, vars_, list(Wire.prepared)
+    Wire.prepared = []
+    outs, vars_, left = run()
+    p.res['states'] += 1
+    p.res['transitions'] += 2
+    p.structural('Wire.prepared is empty after the edges', left == [])
+    a0, a1 = vars_['a0'], vars_['a1']
+
+    def lvl_of(a):
+        return z3.If(a == 7, z3.BitVecVal(5, 3), z3.LShR(a, 1))
+    want = [(z3.Extract(0, 0, a0), lvl_of(a0), None), (z3.Extract(0, 0, a1), lvl_of(a1), z3.If(z3.Extract(0, 0, a0) == 1, lvl_of(a0), z3.BitVecVal(0, 3)))]
+
+    def replay(values):
+        o, _, _ = run(values)
+        exp = []
+        prev_busy, prev_lvl, qv = 0, 0, 0
+        for k in range(2):
+            av = values.get('a%d' % k, 0)
+            if prev_busy:
+                qv = prev_lvl
+            prev_busy, prev_lvl = av & 1, (5 if av == 7 else av >> 1)
+            exp.append((prev_busy, prev_lvl, qv))
+        return None if [tuple(x) for x in o] == exp else {'observed (busy, lvl, q) per edge': [list(x) for x in o], 'expected': [list(x) for x in exp]}
+    from .seq import neq
+    for k in range(2):
+        p.prove('edge %d: busy shows the last value prepared in that edge' % (k + 1), neq(outs[k][0], want[k][0]), inputs=vars_, replay=replay)
+        p.prove('edge %d: lvl shows the last of its two or three prepared values' % (k + 1), neq(outs[k][1], want[k][1]), inputs=vars_, replay=replay)
+    p.prove('edge 2: the register behind sees the values of edge 1', neq(outs[1][2], want[1][2]), inputs=vars_, replay=replay)
+
+
 def tasks_for(tier):
     quick = tier == 'quick'
     tasks = []
@@ -450,6 +523,7 @@ def tasks_for(tier):
             for sp in splits:
                 tasks.append(('split %s clk(%d) vs %s' % (dname, n, '+'.join(map(str, sp))), split_task,
                               {'build': build, 'n': n, 'split': sp}))
+    tasks.append(('one output prepared several times in one edge (default first, override later)', override_task, {}))
     for dname in ('chain3', 'reset-chain', 'sequence-reg', 'reg-fsm-reg') if quick else sorted(D.DESIGNS):
         tasks.append(('stop() from inside an edge, then resume: %s' % dname, stop_task, {'build': D.DESIGNS[dname], 'n': 3}))
     # memories keep their state outside wires: "pre-edge values" includes the stored words (a read returns the content
